@@ -1614,7 +1614,7 @@ func session(run *vh.Run, r *rand.Rand, backends []*backend, tlsBackend *backend
 		for _, u := range tableURLs(curTbl) {
 			in[u] = true
 		}
-		deadline := time.Now().Add(2 * time.Second)
+		deadline := time.Now().Add(8 * time.Second) // leaves the loop as soon as the ends are in; long only on a stalled machine
 		for time.Now().Before(deadline) {
 			ok := true
 			for _, b := range backends {
